@@ -288,11 +288,11 @@ def run(c):
     c.cov["mutants_caught"] = [m[0] for m in mutants]
 
     # ---- 2. generation -> deterministic replay -------------------------------------------------
-    gens = [("g1", 7 if not thorough else 8, 260 if not thorough else 4000,
+    gens = [("g1", 7 if not thorough else 8, 260 if not thorough else 2000,
              dict(wait=["c1", "c2"], handle=["c3"], cancel=["c2"], nw=2, maxfetch=1)),
-            ("g2", 7, 120 if not thorough else 2500,
+            ("g2", 7, 120 if not thorough else 1200,
              dict(wait=["c1"], cached=["c2"], handle=["c3"], nw=2, maxfetch=2)),
-            ("g3", 6 if not thorough else 7, 80 if not thorough else 1500,
+            ("g3", 6 if not thorough else 7, 80 if not thorough else 800,
              dict(wait=["c1", "c2"], key2=["c2"], cached=["c3"], nw=2, keys="{1, 2}", maxfetch=1))]
     total_replayed = conform = inconclusive = 0
     nontriv = set()
@@ -314,7 +314,7 @@ def run(c):
         keys = sorted(groups)
         rnd.shuffle(keys)
         # bound the wall-clock cost of timer-driven events in the quick tier
-        max_timed = 25 if not thorough else 10 ** 9
+        max_timed = 25 if not thorough else 250
         sel, timed = [], 0
         for kk in keys:
             row = groups[kk][0]
@@ -382,7 +382,7 @@ def run(c):
 
     # ---- 3. record under real schedules -> trace validation ------------------------------------
     shards = 2 if not thorough else 8
-    runs = int(os.environ.get("VERIF_C20_RUNS", 250 if not thorough else 2500))
+    runs = int(os.environ.get("VERIF_C20_RUNS", 250 if not thorough else 1000))
     rec_runs = 0
     agg = collections.Counter()
     for sh in range(shards if "rec" in stages else 0):
